@@ -20,5 +20,10 @@ func init() {
 		c.Add(&Job{Pkg: lintPkg, Func: "VerifC14Labels", MustCover: []string{"defined status", "undefined status"}})
 		c.Add(&Job{Pkg: lintPkg, Func: "VerifC14RoundTrip", MustCover: []string{"round trip"}})
 		c.Add(&Job{Pkg: lintPkg, Func: "VerifC14Rejects", MustCover: []string{"known label", "unknown label"}, Tune: func(cf *Config) { cf.StrConvMax = 12 }})
+		// the registry listing and the shape of a result set, by the codec's contract: which fields encoding/json
+		// considers is read from the struct tags of the current source; Encode calls are recorded
+		c.Assume("json.Encoder.Encode and the codec's handling of a struct are a contract (one line per Encode call, members = the struct's tagged exported fields, strings of valid UTF-8 unchanged); the zlint code around it - WriteJSON's loops, the struct tags, LintSource / LintStatus (un)marshalling - is executed")
+		c.Add(&Job{Pkg: rootPkg, Func: "VerifC14Listing", MustCover: []string{"listing"}, NoReplay: true, Tune: func(cf *Config) { cf.Unwind = 4000 }})
+		c.Add(&Job{Pkg: rootPkg, Func: "VerifC14ResultSetShape", MustCover: []string{"shape"}, NoReplay: true})
 	}
 }
